@@ -12,6 +12,8 @@ CHECKS = {
     'C04': 'check_expand', 'C09': 'check_expand',
     'C14': 'check_loader', 'C17': 'check_prince', 'C20': 'check_edit',
     'C12': 'check_session', 'C15': 'check_session',
+    'C03': 'check_train', 'C06': 'check_train',
+    'C13': 'check_score',
     'C05': 'check_segment', 'C16': 'check_honey',
     'C07': 'check_line', 'C19': 'check_reader',
     'C10': 'check_omen', 'C11': 'check_omen', 'C18': 'check_omen',
